@@ -26,6 +26,7 @@ package gocql
 
 import (
 	"bytes"
+	"strconv"
 	"sync"
 
 	"github.com/gocql/gocql/internal/lru"
@@ -74,7 +75,11 @@ func (p *preparedLRU) execIfMissing(key string, fn func(lru *lru.Cache) *infligh
 
 func (p *preparedLRU) keyFor(hostID, keyspace, statement string) string {
 	// TODO: we should just use a struct for the key in the map
-	return hostID + keyspace + statement
+	//
+	// Different (hostID, keyspace, statement) triples must get different keys.
+	// Plain concatenation does not do that: ("h", "a", "bX") and ("h", "ab", "X")
+	// would share one entry, so the lengths of the first two parts are included.
+	return strconv.Itoa(len(hostID)) + "/" + strconv.Itoa(len(keyspace)) + "/" + hostID + keyspace + statement
 }
 
 func (p *preparedLRU) evictPreparedID(key string, id []byte) {
